@@ -93,3 +93,96 @@ Proof.
   intro Hrec; xl_rec Hrec.
   all: intros name active valid; unfold src_downtime_orphaned_timer_iter, fx_DowntimeRemovedByConfigOwner; destruct active, valid; reflexivity.
 Qed.
+
+(* ------------------------------------------------------------------ TriggerDowntime with its recursion into chained downtimes.
+   The translation of round 1 is ONE call: it reads the attributes of one Downtime object, may write trigger_time, and reports, in
+   program order, the clean-up timer, one XeTriggerChild per EXISTING chained downtime and OnDowntimeTriggered.  xs_run is the
+   hand-written interpreter that closes the recursion over the model's downtime store: XeTriggerChild c t' runs the same translated
+   function on the attributes of c (on fuel, like the model); the attribute write is upd_trigger; OnDowntimeTriggered is the
+   model's pair of outputs (flexible-start notification unless paused, then the event).  Theorem: for a non-zero instant
+   (timestamps are positive) xs_run IS trigger_dt. *)
+From Icv Require Import Ck.CkDtProofs.
+
+Definition xs_exists (ds : list dt) (c : Z) : bool := match find_dt c ds with Some _ => true | None => false end.
+
+Fixpoint xs_run (fuel : nat) (now : Z) (paused : bool) (id t : Z) (ds : list dt) : list dt * list out :=
+  match fuel with
+  | O => (ds, [])
+  | S fuel' =>
+      match find_dt id ds with
+      | None => (ds, [])
+      | Some d =>
+          let '(tr, evs) := src_downtime_trigger_downtime now (d_fixed d) (d_start d) (d_end d) (d_trigger d) (d_duration d) t
+                              (d_triggers d) (xs_exists ds) in
+          let ds1 := if tr =? d_trigger d then ds else upd_trigger id tr ds in
+          fold_left (fun (acc : list dt * list out) ev =>
+                       let '(dsa, oa) := acc in
+                       match ev with
+                       | XeArmCleanup => acc
+                       | XeTriggerChild c t' => let '(dsb, ob) := xs_run fuel' now paused c t' dsa in (dsb, oa ++ ob)
+                       | XeTriggered => (dsa, oa ++ (if negb (d_fixed d) && negb paused then [ONotify NDowntimeStart] else []) ++ [ODtTriggered id])
+                       end) evs (ds1, [])
+      end
+  end.
+
+Lemma xs_exists_ids ds c : xs_exists ds c = existsb (fun i => i =? c) (ids ds).
+Proof.
+  unfold xs_exists, find_dt, ids. induction ds as [|d r IH]; cbn [find map existsb]; [reflexivity|].
+  destruct (d_id d =? c); [reflexivity|exact IH].
+Qed.
+
+Lemma xs_upd_ids id t ds : ids (upd_trigger id t ds) = ids ds.
+Proof. unfold ids, upd_trigger. rewrite map_map. apply map_ext. intro d. destruct (d_id d =? id); reflexivity. Qed.
+
+Lemma xs_trigger_ids fuel : forall now p id t ds, ids (fst (trigger_dt fuel now p id t ds)) = ids ds.
+Proof.
+  induction fuel as [|fuel IH]; intros now p id t ds; cbn [trigger_dt]; [reflexivity|].
+  destruct (find_dt id ds) as [d|]; [|reflexivity].
+  destruct (negb (dt_can_be_triggered now d)); [reflexivity|].
+  match goal with |- context [fold_left ?f ?l ?a] => assert (H : ids (fst (fold_left f l a)) = ids ds) end.
+  { apply fold_left_inv with (Q := fun acc => ids (fst acc) = ids ds).
+    - cbn [fst]. destruct (d_trigger d =? 0); [apply xs_upd_ids|reflexivity].
+    - intros [dsa oa] cid _ Ha. cbn [fst] in *. pose proof (IH now p cid t dsa) as Hi.
+      destruct (trigger_dt fuel now p cid t dsa) as [dsb ob]. cbn [fst] in *. congruence. }
+  match goal with |- context [fold_left ?f ?l ?a] => destruct (fold_left f l a) as [ds2 o2] end. exact H.
+Qed.
+
+Lemma xs_trigger_absent fuel now p c t ds : xs_exists ds c = false -> trigger_dt fuel now p c t ds = (ds, []).
+Proof. unfold xs_exists. destruct fuel; cbn [trigger_dt]; [reflexivity|]. destruct (find_dt c ds); [discriminate|reflexivity]. Qed.
+
+Theorem src_trigger_downtime_recursion : src_downtime_trigger_downtime_recognised = true ->
+  forall fuel now paused id t ds, t <> 0 -> xs_run fuel now paused id t ds = trigger_dt fuel now paused id t ds.
+Proof.
+  intros Hrec fuel. induction fuel as [|fuel IH]; intros now paused id t ds Ht; cbn [xs_run trigger_dt]; [reflexivity|].
+  destruct (find_dt id ds) as [d|] eqn:Hf; [|reflexivity].
+  pose proof (src_downtime_trigger_downtime_eq Hrec now d t (xs_exists ds)) as E. unfold xdt in E. rewrite E. clear E.
+  destruct (dt_can_be_triggered now d); cbn [negb]; [|rewrite Z.eqb_refl; reflexivity].
+  (* the attribute write *)
+  assert (E1 : (if (if d_trigger d =? 0 then t else d_trigger d) =? d_trigger d then ds
+                else upd_trigger id (if d_trigger d =? 0 then t else d_trigger d) ds)
+               = (if d_trigger d =? 0 then upd_trigger id t ds else ds)).
+  { destruct (d_trigger d =? 0) eqn:E0; [|rewrite Z.eqb_refl; reflexivity].
+    apply Z.eqb_eq in E0. rewrite E0. destruct (t =? 0) eqn:E2; [apply Z.eqb_eq in E2; contradiction|reflexivity]. }
+  rewrite E1. clear E1. set (ds1 := if d_trigger d =? 0 then upd_trigger id t ds else ds).
+  assert (Hids1 : ids ds1 = ids ds) by (unfold ds1; destruct (d_trigger d =? 0); [apply xs_upd_ids|reflexivity]).
+  cbn [fold_left]. rewrite fold_left_app. cbn [fold_left].
+  (* the loop over the chained downtimes *)
+  assert (L : forall l dsa oa, ids dsa = ids ds ->
+            fold_left (fun (acc : list dt * list out) ev =>
+                         let '(dsa, oa) := acc in
+                         match ev with
+                         | XeArmCleanup => acc
+                         | XeTriggerChild c t' => let '(dsb, ob) := xs_run fuel now paused c t' dsa in (dsb, oa ++ ob)
+                         | XeTriggered => (dsa, oa ++ (if negb (d_fixed d) && negb paused then [ONotify NDowntimeStart] else []) ++ [ODtTriggered id])
+                         end) (map (fun c => XeTriggerChild c t) (filter (xs_exists ds) l)) (dsa, oa)
+            = fold_left (fun acc cid => let '(dsa, oa) := acc in
+                                        let '(dsb, ob) := trigger_dt fuel now paused cid t dsa in (dsb, oa ++ ob)) l (dsa, oa)).
+  { induction l as [|c r IHl]; intros dsa oa Hi; cbn [filter map fold_left]; [reflexivity|].
+    destruct (xs_exists ds c) eqn:Ex; cbn [map fold_left].
+    - rewrite (IH now paused c t dsa Ht). pose proof (xs_trigger_ids fuel now paused c t dsa) as Hk.
+      destruct (trigger_dt fuel now paused c t dsa) as [dsb ob]. cbn [fst] in Hk. apply IHl. congruence.
+    - assert (Ex' : xs_exists dsa c = false) by (rewrite xs_exists_ids, Hi, <- xs_exists_ids; exact Ex).
+      rewrite (xs_trigger_absent fuel now paused c t dsa Ex'), app_nil_r. apply IHl; exact Hi. }
+  rewrite (L (d_triggers d) ds1 [] Hids1).
+  destruct (fold_left _ (d_triggers d) (ds1, [])) as [ds2 o2]. reflexivity.
+Qed.
